@@ -25,11 +25,15 @@ pub struct P {
     pub sym_lev: bool,
     /// slippage limit of the transaction under test symbolic (else 0 = none)
     pub sym_lim: bool,
+    /// initial / maintenance margin ratios symbolic with maintenance <= initial <= 1
+    pub sym_ratios: bool,
+    /// carol, the liquidator and the stranger hold small positions opened in an earlier block
+    pub bystanders: bool,
 }
 
 impl P {
     pub fn new(prop: &'static str, side: Side, seed: u64) -> P {
-        P { prop, native: false, dec: 9, fees: false, side, wide: false, seed, partial_sym: false, full_prefix: false, concrete_prefix: false, sym_lev: false, sym_lim: false }
+        P { prop, native: false, dec: 9, fees: false, side, wide: false, seed, partial_sym: false, full_prefix: false, concrete_prefix: false, sym_lev: false, sym_lim: false, sym_ratios: false, bystanders: prop == "C10" }
     }
     pub fn native(mut self) -> P {
         self.native = true;
@@ -50,6 +54,10 @@ impl P {
     }
     pub fn full_prefix(mut self) -> P {
         self.full_prefix = true;
+        self
+    }
+    pub fn ratios(mut self) -> P {
+        self.sym_ratios = true;
         self
     }
     pub fn lev(mut self) -> P {
@@ -91,10 +99,35 @@ impl P {
         if self.partial_sym {
             cfg.partial_ratio = ratio("partial_ratio", d, d / 4);
         }
+        if self.sym_ratios {
+            cfg.init_ratio = ratio("init_ratio", d, d / 20);
+            cfg.maint_ratio = ratio("maint_ratio", d, d / 20);
+            symrt::assume(crate::sx::s(cfg.maint_ratio).le(crate::sx::s(cfg.init_ratio)));
+        }
         cfg
     }
     pub fn run(&self) -> Run {
-        Run::new(self.cfg(), Mon::only(self.prop))
+        self.run_cfg(self.cfg())
+    }
+    pub fn run_cfg(&self, cfg: Cfg) -> Run {
+        let mut r = Run::new(cfg, Mon::only(self.prop));
+        if self.bystanders {
+            let d = r.w.d;
+            let was_full = symrt::is_full();
+            symrt::set_full(false);
+            for (who, side, m) in [(CAROL, Side::Buy, 3u128), (LIQ, Side::Sell, 2), (EVE, Side::Buy, 1)] {
+                let (mg, lv) = (Uint128::new(m * d), Uint128::new(2 * d));
+                let f = if self.native { Some(native_open_funds(&r.w, mg, lv)) } else { None };
+                r.w.open(who, 0, side, mg, lv, Uint128::zero(), f);
+            }
+            r.w.next_block(15);
+            symrt::set_full(was_full);
+        }
+        r
+    }
+    pub fn with_bystanders(mut self) -> P {
+        self.bystanders = true;
+        self
     }
     pub fn tag(&self) -> String {
         format!(
@@ -106,7 +139,7 @@ impl P {
             if self.wide { ".wide" } else { "" },
             if self.sym_lev { ".lev" } else { "" },
             if self.sym_lim { ".lim" } else { "" }
-        )
+        ) + if self.sym_ratios { ".ratios" } else { "" }
     }
     fn prefix_mode(&self) {
         symrt::set_full(self.full_prefix);
@@ -208,7 +241,7 @@ pub fn t_liq(p: P, regime: u128) -> impl Fn() {
         cfg.init_ratio = Uint128::new(d / 10);
         cfg.liq_fee = ratio("liq_fee", d, d / 20);
         symrt::assume(crate::sx::s(cfg.maint_ratio).le(crate::sx::c(d / 10)));
-        let mut r = Run::new(cfg, Mon::only(p.prop));
+        let mut r = p.run_cfg(cfg);
         p.prefix_mode();
         let m1 = p.pre_amount("m1", d, 25);
         let l1 = Uint128::new(10 * d);
@@ -302,5 +335,33 @@ pub fn t_fund(p: P, then: u8) -> impl Fn() {
                 r.step(Op::Open { who: ALICE, side: p.side.clone(), margin: m3, lev: l1, limit: Uint128::zero(), funds: f });
             }
         }
+    }
+}
+
+/// T-close at 10x: alice 25 x10, bob trades against her with a symbolic size seeded in a regime
+/// (3 healthy, 7 around zero equity, 45 deep bad debt), alice closes
+pub fn t_close_regime(p: P, units: u128) -> impl Fn() {
+    move || {
+        let mut r = p.run();
+        let d = r.w.d;
+        p.prefix_mode();
+        let m1 = Uint128::new(25 * d);
+        let l1 = Uint128::new(10 * d);
+        let f = funds_for(&r, &p, m1, l1);
+        let t = r.step(Op::Open { who: ALICE, side: p.side.clone(), margin: m1, lev: l1, limit: Uint128::zero(), funds: f });
+        if !t.tx.ok {
+            return;
+        }
+        r.w.next_block(15);
+        let m2 = amount("m2", d, false, units);
+        let f = funds_for(&r, &p, m2, l1);
+        let t = r.step(Op::Open { who: BOB, side: opp(&p.side), margin: m2, lev: l1, limit: Uint128::zero(), funds: f });
+        if !t.tx.ok {
+            return;
+        }
+        r.w.next_block(15);
+        symrt::set_full(true);
+        let lim = p.tx_lim("qlim", d);
+        r.step(Op::Close { who: ALICE, limit: lim });
     }
 }
